@@ -73,7 +73,7 @@ def base_machine(rng):
 def mutate(asl, r):
     m = copy.deepcopy(asl)
     nodes = [(p, n) for p, n in walk(m) if p]
-    kind = r.choice(["drop", "retype", "rename", "retarget", "dupstate", "wrongjson", "hostile-name", "payload-key-name", "nonobject-state", "empty", "empty-array"])
+    kind = r.choice(["drop", "retype", "rename", "retarget", "dupstate", "wrongjson", "hostile-name", "payload-key-name", "nonobject-state", "empty", "empty-array", "dup-sibling", "wrong-typed-field"])
     p, n = r.choice(nodes)
     parent = get(m, p[:-1]); key = p[-1]
     if kind == "drop":
@@ -115,6 +115,22 @@ def mutate(asl, r):
         sts = [(pp, nn) for pp, nn in walk(m) if pp and pp[-1] == "States" and isinstance(nn, dict) and nn]
         pp, states = r.choice(sts)
         states[r.choice(list(states))] = r.choice(["Bogus", 5, None, [], True])
+    elif kind == "dup-sibling":
+        # the first state of one branch gets the name of a state of a sibling branch (or of another fan-out's body)
+        bodies = [(pp, nn) for pp, nn in walk(m) if pp and isinstance(nn, dict) and isinstance(nn.get("States"), dict) and nn["States"] and "StartAt" in nn]
+        if len(bodies) >= 2:
+            (p1, b1), (p2, b2) = r.sample(bodies, 2)
+            new = r.choice(list(b1["States"]))
+            if new not in b2["States"] and b2.get("StartAt") in b2["States"] and p1 != p2[:len(p1)] and p2 != p1[:len(p2)]:
+                rename_state(m, p2 + ("States",), b2["StartAt"], new)
+    elif kind == "wrong-typed-field":
+        # a field the engine dereferences gets a value of another JSON type
+        sts = [(pp, nn) for pp, nn in walk(m) if isinstance(nn, dict) and nn.get("Type") in ("Task", "Wait", "Choice", "Map", "Parallel", "Pass")]
+        if sts:
+            pp, st = r.choice(sts)
+            f = r.choice([k for k in ("Resource", "Seconds", "Timestamp", "TimeoutSeconds", "Retry", "Catch", "Parameters", "ItemsPath", "InputPath", "ResultPath",
+                                      "Choices", "Branches", "MaxConcurrency", "HeartbeatSeconds", "Next", "Default") if k in st] or ["Resource"])
+            st[f] = copy.deepcopy(r.choice([None, 5, [1], {"a": 1}, True, "x", -1, 1.5]))
     elif kind == "empty-array":
         arrays = [(pp, nn) for pp, nn in walk(m) if pp and isinstance(nn, list) and nn]
         if arrays:
@@ -216,8 +232,14 @@ def handled_fanout_failure_with_siblings(m, history):
 
 
 def callback_frames(error):
-    """The exception escaped from a deferred callback (delegate / reply / timer), i.e. outside notify()'s own catch-all."""
-    return bool(error) and any(f in error for f in ("_delegate", "on_response", "on_timeout", "handle_rpcmessage_response", "timeout_callback", "handle_unroutable"))
+    """The listed call site: an exception raised INSIDE handle_error() (it interprets Retry/Catch of a definition the validator let through)
+    while handle_error was reached from a deferred callback (reply / time-out / delegate), i.e. outside notify()'s own catch-all.  An
+    exception that escapes from anywhere else in a deferred callback is not this finding."""
+    import re
+    if not error or not any(f in error for f in ("_delegate", "on_response", "on_timeout", "handle_rpcmessage_response", "timeout_callback", "handle_unroutable")):
+        return False
+    frames = re.findall(r'File "[^"]*asl_workflow_engine/[^"]*", line \d+, in (\w+)', error)
+    return bool(frames) and frames[-1] == "handle_error"
 
 
 def validate(ctx, sl, x):
@@ -423,6 +445,28 @@ def run(ctx):
                ("event", {"context": {"StateMachine": {"Id": "arn:aws:states:local:0123456789:stateMachine:byvalue", "Definition": 5}}}),
                ("raw", "{not json"), ("raw", ""), ("raw", b"\xff\xfe"), ("instance-event", {"data": {}, "context": {"StateMachine": {"Id": "arn:aws:states:local:0123456789:stateMachine:h"}, "State": {"Name": "H2", "Branch": 5}, "Execution": {"Id": "arn:aws:states:local:0123456789:execution:h:y"}}}),
                ("reply", "{not json"), ("reply", json.dumps({"errorType": "X"})), ("reply", "5")]
+    # fields the engine dereferences, with a value of the wrong JSON type (each would be refused by the validator, so only a store written
+    # behind its back can hold them: exactly the "definition the engine cannot interpret" of the statement)
+    tk = lambda **kw: {"StartAt": "A", "States": {"A": dict({"Type": "Task", "Resource": "arn:aws:rpcmessage:local::function:echo", "End": True}, **kw)}}
+    for bad in (None, 5, [1], {"a": 1}, True):
+        poisons.append(("definition", tk(Resource=bad)))
+    for fld, vals in (("TimeoutSeconds", ["x", None, [1], -1]), ("HeartbeatSeconds", ["x", {}]), ("Retry", [5, "x", {"a": 1}, [5], [None]]), ("Catch", [5, "x", [5], [{"Next": 5}]]),
+                      ("Parameters", [5, "x", [1]]), ("InputPath", [5, [1], {}]), ("ResultPath", [5, [1], {}]), ("OutputPath", [5, {}]), ("ResultSelector", [5, "x"]),
+                      ("Next", [5, None, [1], {}])):
+        for v in vals:
+            d = tk(**{fld: v})
+            if fld == "Next":
+                d["States"]["A"].pop("End")
+            poisons.append(("definition", d))
+    for st in ({"Type": "Wait", "Seconds": "x", "End": True}, {"Type": "Wait", "Seconds": [1], "End": True}, {"Type": "Wait", "SecondsPath": 5, "End": True},
+               {"Type": "Wait", "TimestampPath": {}, "End": True}, {"Type": "Choice", "Choices": {"a": 1}, "Default": "A"}, {"Type": "Choice", "Choices": [5]},
+               {"Type": "Choice", "Choices": [{"Variable": 5, "IsPresent": True, "Next": "A"}]}, {"Type": "Choice", "Choices": [{"And": 5, "Next": "A"}]},
+               {"Type": "Map", "ItemsPath": 5, "ItemProcessor": {"StartAt": "X", "States": {"X": {"Type": "Succeed"}}}, "End": True},
+               {"Type": "Map", "MaxConcurrency": "x", "ItemsPath": "$.items", "ItemProcessor": {"StartAt": "X", "States": {"X": {"Type": "Succeed"}}}, "End": True},
+               {"Type": "Map", "ItemsPath": "$.items", "ItemProcessor": 5, "End": True}, {"Type": "Parallel", "Branches": {"a": 1}, "End": True},
+               {"Type": "Parallel", "Branches": [{"StartAt": 5, "States": {}}], "End": True}, {"Type": "Pass", "Result": 1, "ResultPath": 5, "End": True},
+               {"Type": "Fail", "Error": 5, "Cause": [1]}, {"Type": 5, "End": True}, {"Type": ["Pass"], "End": True}):
+        poisons.append(("definition", {"StartAt": "A", "States": {"A": st}}))
     for k, (pk, payload) in enumerate(poisons):
         i += 1
         if ctx.mine(i):
